@@ -95,6 +95,19 @@ Theorem c03_fast_atoi_ub_refuted :
 Proof. exact c03_atoi_ub_lemma. Qed.
 Print Assumptions c03_fast_atoi_ub_refuted.
 
+(* New finding: the date/time field constructors (parse_decimal / time_to_epoch, field.hpp) have UB
+   on received texts: month 14 indexes mon_days[13] + 1, a char below '0' leads to a shift of a
+   negative value, year 9999 overflows the 64-bit tick count; None = the parser reads beyond the text. *)
+Theorem c03_datetime_ub_refuted :
+  dt_ub ft_UTCTimestamp (bytes_of_string "20231401-00:00:00"%string) = Some true /\
+  dt_ub ft_UTCTimestamp (bytes_of_string "2023-101-00:00:00.000"%string) = Some true /\
+  dt_ub ft_LocalMktDate (bytes_of_string "99990101"%string) = Some true /\
+  dt_ub ft_UTCTimestamp (bytes_of_string "20230101-00:00:00.000"%string) = Some false /\
+  dt_ub ft_UTCTimestamp (bytes_of_string "20391301-00:00:00"%string) = Some false /\
+  dt_ub ft_UTCTimestamp (bytes_of_string "2023"%string) = None.
+Proof. exact c03_datetime_ub_lemma. Qed.
+Print Assumptions c03_datetime_ub_refuted.
+
 (* Non-vacuity: the example schema is well-formed, an encoded message with nested groups is
    bounded and decodes; a schema exists that meets the hypotheses of the strong theorem, decodes
    the same message and rejects the hang input with an exception. *)
